@@ -1,100 +1,4 @@
-//! Correspondence harness: calls the real hpbf code in-process and writes, per suite, a request file
-//! (`<suite>.req`, fed to the Lean driver) and the implementation's replies (`<suite>.impl`), line
-//! by line in the reply format of the driver.
-//!
-//! usage: corr <suite> <seed> <count> <outdir>
-
-mod dsuites;
-mod gen;
-mod suites;
-mod util;
-
-use std::fs::File;
-use std::io::{BufWriter, Write};
-
-pub struct Out {
-    pub req: BufWriter<File>,
-    pub imp: BufWriter<File>,
-    pub stats: std::collections::BTreeMap<String, u64>,
-    pub progress: std::path::PathBuf,
-    pub cases: usize,
-    pub fixed_fuel: Option<String>,
-}
-
-impl Out {
-    pub fn case(&mut self, req: &str, imp: &str) {
-        self.cases += 1;
-        writeln!(self.req, "{}", req).unwrap();
-        writeln!(self.imp, "{}", imp).unwrap();
-    }
-    pub fn stat(&mut self, key: &str) {
-        *self.stats.entry(key.to_string()).or_insert(0) += 1;
-    }
-    /// Record the case about to run, so that a hang or crash can be attributed.
-    pub fn mark(&mut self, what: &str) {
-        let _ = std::fs::write(&self.progress, what);
-    }
-}
-
+//! `corr`: the correspondence harness entry point (see lib.rs).
 fn main() {
-    let args: Vec<String> = std::env::args().collect();
-    if args.len() != 5 {
-        eprintln!("usage: corr <suite> <seed> <count> <outdir>  |  corr replay <name> <reqfile> <outdir>");
-        std::process::exit(2);
-    }
-    let is_replay = args[1] == "replay";
-    let suite = if is_replay { &args[2] } else { &args[1] };
-    let seed: u64 = if is_replay { 0 } else { args[2].parse().expect("seed") };
-    let count: usize = if is_replay { 0 } else { args[3].parse().expect("count") };
-    let outdir = std::path::PathBuf::from(&args[4]);
-    std::fs::create_dir_all(&outdir).unwrap();
-    let mut out = Out {
-        req: BufWriter::new(File::create(outdir.join(format!("{suite}.req"))).unwrap()),
-        imp: BufWriter::new(File::create(outdir.join(format!("{suite}.impl"))).unwrap()),
-        stats: Default::default(),
-        progress: outdir.join(format!("{suite}.progress")),
-        cases: 0,
-        fixed_fuel: None,
-    };
-    let mut rng = util::Rng::new(seed);
-    if is_replay {
-        let lines: Vec<String> = std::fs::read_to_string(&args[3])
-            .expect("reqfile")
-            .lines()
-            .map(|l| l.to_string())
-            .collect();
-        suites::replay(&lines, &mut out);
-    } else {
-    match suite.as_str() {
-        "cell" => dsuites::cell(&mut rng, count, &mut out),
-        "mem" => dsuites::mem(&mut rng, count, &mut out),
-        "inplace" => suites::inplace(&mut rng, count, &mut out),
-        "irparse" => suites::irparse(&mut rng, count, &mut out),
-        "irrun" => suites::irrun(&mut rng, count, &mut out),
-        "e2e" => suites::e2e(&mut rng, count, &mut out),
-        "bcrun" => suites::bcrun(&mut rng, count, &mut out),
-        "levelcap" => suites::levelcap(&mut rng, count, &mut out),
-        "bcgen" => suites::bcgen(&mut rng, count, &mut out),
-        "irecho" => suites::irecho(&mut rng, count, &mut out),
-        "sv" => dsuites::smallvec(&mut rng, count, &mut out),
-        "expr" => dsuites::expr(&mut rng, count, &mut out),
-        _ => {
-            eprintln!("unknown suite {suite}");
-            std::process::exit(2);
-        }
-    }
-    }
-    out.req.flush().unwrap();
-    out.imp.flush().unwrap();
-    let stats: Vec<String> = out
-        .stats
-        .iter()
-        .map(|(k, v)| format!("\"{}\": {}", k, v))
-        .collect();
-    std::fs::write(
-        outdir.join(format!("{suite}.stats.json")),
-        format!("{{{}}}", stats.join(", ")),
-    )
-    .unwrap();
-    let _ = std::fs::remove_file(&out.progress);
+    verif_harness::run_cli(std::env::args().collect());
 }
